@@ -74,11 +74,11 @@ class Reader:
         if kind == "badunits":
             return "badunits"       # '<m<s>': a units delimiter inside units
         if kind == "badchar":
+            o = ord(text)
             if self.d == "default":
                 raise Ambiguous("any character is allowed by the default grammar")
-            if self.d == "ISISv" and text == "\u03b1":
-                # ISISGrammar inherits PVL's character set: not allowed
-                return "badchar"
+            if self.d in ODL_FAMILY and o < 128:
+                raise Ambiguous("an ASCII control character is in ODL's character set")
             return "badchar"
         fold = text.casefold()
         if fold == "end":
@@ -229,6 +229,8 @@ class Reader:
         if self.cls(self.peek()) != "=":
             raise Ill("begin-keyword-without-equals", self.i)
         self.i += 1
+        if self.cls(self.peek()) == "valuekw":
+            raise Ambiguous("NULL/TRUE/FALSE as a block name")
         if self.cls(self.peek()) != "plain":
             raise Ill("block-name-expected", self.i)
         name = self.peek()[0]
